@@ -1,8 +1,17 @@
 /-
   Lifecycle: the connect / stream / disconnect state machine of `NxscopeHandler` (nxscope.py) on
-  top of `CommHandler` (comm.py) against a device that acknowledges every request.  Configuration
-  calls reuse the `Config` machine (bytes on the wire come from the request builders); the
-  handshake is the fault-free path of `Handshake`.  Time is virtual, in tenths of a second.
+  top of `CommHandler` (comm.py), and of a bare `CommHandler`, against a device that answers every
+  stream start/stop, divider and enable request as an answer record `Ans` says (acknowledge / reject
+  with a code / apply but lose the ACK / lose the request; default: acknowledge).  Configuration calls
+  reuse the `Config` machine (bytes on the wire come from the request builders); the handshake is the
+  fault-free path of `Handshake`.  The device carries a static description (`Desc`: per channel the
+  type byte, dimension, metadata length and name; the rx padding) which a connect copies into what the
+  handler reports (`World.reported`).
+
+  Time is virtual, in tenths of a second, and counts what a call spends waiting for the device: ACK
+  waits (`Gen.Comm.ackTimeout…`), the draining polls of connect / disconnect.  Joining a library thread
+  is not charged here (it is bounded by one wait of the joined thread's body: C13; the harness measures
+  and bounds it separately).
 -/
 import NxsModel.Config
 import NxsModel.Gen.Comm
@@ -10,17 +19,51 @@ namespace Nxs
 namespace Lifecycle
 open Config Requests
 
+/-- static description of one channel: type byte, vector dimension, metadata length, name (UTF-8) -/
+structure ChanDesc where
+  type : Nat
+  vdim : Nat
+  mlen : Nat
+  name : Bytes
+  deriving DecidableEq, Repr
+
+/-- static description of a device (the channel count is the length of the device's state vectors) -/
+structure Desc where
+  chans : List ChanDesc := []
+  rxpadding : Nat := 0
+  deriving DecidableEq, Repr
+
+/-- what a handler reports as the static description (`handler.dev`) -/
+structure Reported where
+  chmax : Nat
+  flags : Nat
+  rxpadding : Nat
+  chans : List ChanDesc
+  deriving DecidableEq, Repr
+
+/-- what the device does with the (at most one each) stream start/stop, divider and enable request
+    that a single public call issues -/
+structure Ans where
+  st : Outcome := .ack
+  dv : Outcome := .ack
+  en : Outcome := .ack
+  deriving DecidableEq, Repr
+
 structure World where
   -- the device
   dev : Device
   devStarted : Bool
   flags : Nat
+  desc : Desc := {}
+  -- the interface (`write_padding` persists across sessions)
+  intf : Bool := false
+  intfPad : Nat := 0
   -- CommHandler
   commStarted : Bool := false
   hasDev : Bool := false
+  reported : Option Reported := none -- static part of `_dev`
   cli : Option Client := none       -- `_channels` (persists across disconnect)
   recvThr : Bool := false
-  intf : Bool := false
   -- NxscopeHandler
   connected : Bool := false
   streamStarted : Bool := false
@@ -35,15 +78,23 @@ structure World where
 inductive Res where
   | ok
   | raised (e : Err)
+  | ack (state : Bool) (code : Int)   -- the `ParseAck` returned by `CommHandler.stream_start/stop`
   deriving DecidableEq, Repr
 
-/-- public calls of the high-level handler -/
+/-- public calls of the high-level handler (channel ids as Python indexes them: negative = from the end) -/
 inductive Call where
   | connect | disconnect | streamStart | streamStop
-  | sub (c : Nat) | unsub (q : Nat)
-  | chEnable (cs : List Nat) (w : Bool) | chDisable (cs : List Nat) (w : Bool)
-  | chDisableAll (w : Bool) | chDivider (cs : List Nat) (v : Int) (w : Bool)
-  | defaultCfg (w : Bool) | channelsWrite | devChannelGet (c : Nat)
+  | sub (c : Int) | unsub (q : Nat)
+  | chEnable (cs : List Int) (w : Bool) | chDisable (cs : List Int) (w : Bool)
+  | chDisableAll (w : Bool) | chDivider (cs : List Int) (v : Int) (w : Bool)
+  | defaultCfg (w : Bool) | channelsWrite | devChannelGet (c : Int)
+  deriving DecidableEq, Repr
+
+/-- public calls of the low-level handler (a bare `CommHandler`) -/
+inductive CommCall where
+  | connect | disconnect | streamStart | streamStop
+  | chEnable (cs : List Int) | chDisable (cs : List Int) | chDivider (cs : List Int) (v : Int)
+  | chEnableAll | chDisableAll | defaultCfg | channelsWrite
   deriving DecidableEq, Repr
 
 def drain : Nat := Gen.Comm.drainPolls * Gen.Comm.drainPollTime + Gen.Comm.drainStreamPolls * Gen.Comm.drainStreamPollTime
@@ -54,35 +105,66 @@ def chinfoFrames : Nat → Nat → List Bytes
   | _, 0 => []
   | i, k + 1 => okFrame (frameChinfo i) ++ chinfoFrames (i + 1) k
 
+/-- Python list index `c` into a list of length `len`: `len` (out of range) when it raises IndexError -/
+def pyIdx (len : Nat) (c : Int) : Nat :=
+  if 0 ≤ c then c.toNat else if -c ≤ len then len - (-c).toNat else len
+
+/-- the static description a connect reads from the device -/
+def describe (w : World) : Reported := ⟨w.dev.en.length, w.flags, w.desc.rxpadding, w.desc.chans⟩
+
+/-- `_devinfo_get`: a device with rx padding makes the client reconfigure the interface (once: the
+    interface keeps its padding) and write that many zero bytes -/
+def padWrite (w : World) : List Bytes :=
+  if w.desc.rxpadding > 0 ∧ w.intfPad ≠ w.desc.rxpadding then [List.replicate w.desc.rxpadding 0] else []
+
 /-- `CommHandler.connect()` -/
 def commConnect (w : World) : World :=
   if w.commStarted then w
   else
     let n := w.dev.en.length
     { w with intf := true, devStarted := false, recvThr := true,
-             log := w.log ++ okFrame (frameStart false) ++ okFrame frameCmninfo ++ chinfoFrames 0 n,
+             log := w.log ++ okFrame (frameStart false) ++ okFrame frameCmninfo ++ padWrite w ++ chinfoFrames 0 n,
              time := w.time + drain + drain,
-             hasDev := true, cli := some (Client.init w.dev w.flags), commStarted := true }
+             intfPad := if w.desc.rxpadding > 0 then w.desc.rxpadding else w.intfPad,
+             hasDev := true, reported := some (describe w),
+             cli := some (Client.init w.dev w.flags), commStarted := true }
 
 /-- `CommHandler.disconnect()` -/
 def commDisconnect (w : World) : World :=
   if w.commStarted then
-    { w with recvThr := false, intf := false, time := w.time + drain, commStarted := false, hasDev := false }
+    { w with recvThr := false, intf := false, time := w.time + drain, commStarted := false, hasDev := false,
+             reported := none }
   else w
 
-/-- `channels_write` on a connected handler, every request acknowledged -/
-def doWrite (w : World) : World × Res :=
+/-- `_get_ack` after a start / stop request: (state, return code, time spent waiting) -/
+def startAck (w : World) (o : Outcome) (timeout : Nat) : Bool × Int × Nat :=
+  if !w.hasDev || !Info.ackSupported w.flags then (true, 0, 0)
+  else match o with
+    | .ack => (true, 0, 0)
+    | .nack r => if r = 0 then (true, 0, 0) else (false, r, 0)
+    | .appliedAckLost => (false, -1, timeout)
+    | .lost => (false, -1, timeout)
+
+/-- `CommHandler.stream_start()` (`start = true`) / `stream_stop()`: the request is written whatever the
+    state of the handler; returns the ACK -/
+def commStartReq (w : World) (start : Bool) (o : Outcome) : World × Bool × Int :=
+  let r := startAck w o (if start then Gen.Comm.ackTimeoutStart else Gen.Comm.ackTimeoutStop)
+  ({ w with log := w.log ++ okFrame (frameStart start),
+            devStarted := if applies o then start else w.devStarted,
+            time := w.time + r.2.2 }, r.1, r.2.1)
+
+/-- `channels_write` on a handler, the device answering the divider / enable request with `a.dv` / `a.en` -/
+def doWrite (w : World) (a : Ans := {}) : World × Res :=
   if !w.hasDev then (w, .raised .assertion)
   else match w.cli with
     | none => (w, .raised .attributeError)
     | some c =>
-      let (c', d', o) := channelsWrite c w.dev .ack .ack
-      match o.err with
-      | some e => ({ w with cli := some c', dev := d', log := w.log ++ o.sent }, .raised e)
-      | none => ({ w with cli := some c', dev := d', log := w.log ++ o.sent, time := w.time + o.time }, .ok)
+      let (c', d', o) := channelsWrite c w.dev a.dv a.en
+      ({ w with cli := some c', dev := d', log := w.log ++ o.sent, time := w.time + o.time },
+       match o.err with | some e => .raised e | none => .ok)
 
 /-- a buffered configuration call followed, if `writenow`, by `channels_write` -/
-def cfgCall (w : World) (op : Op) (writenow : Bool) : World × Res :=
+def cfgCall (w : World) (op : Op) (writenow : Bool) (a : Ans := {}) : World × Res :=
   match w.cli with
   | none => (w, .raised .attributeError)
   | some c =>
@@ -90,15 +172,22 @@ def cfgCall (w : World) (op : Op) (writenow : Bool) : World × Res :=
     let w' := { w with cli := some c' }
     match o.err with
     | some e => (w', .raised e)
-    | none => if writenow then doWrite w' else (w', .ok)
+    | none => if writenow then doWrite w' a else (w', .ok)
 
-def streamStop (w : World) : World :=
+/-- the indices of a setter call, as list positions of an `n`-entry vector -/
+def idxs (w : World) (cs : List Int) : List Nat :=
+  match w.cli with
+  | none => []
+  | some c => cs.map (pyIdx c.enNew.length)
+
+/-- `NxscopeHandler.stream_stop()`: the outcome of the stop request is ignored -/
+def streamStop (w : World) (a : Ans := {}) : World :=
   if w.streamStarted then
-    { w with log := w.log ++ okFrame (frameStart false), devStarted := false, streamThr := false,
-             streamStarted := false }
+    { (commStartReq w false a.st).1 with streamThr := false, streamStarted := false }
   else w
 
-def step (w : World) : Call → World × Res
+def step (w : World) (call : Call) (a : Ans := {}) : World × Res :=
+  match call with
   | .connect =>
     if w.connected then (w, .ok)
     else
@@ -106,41 +195,61 @@ def step (w : World) : Call → World × Res
       ({ w1 with subs := List.replicate w1.dev.en.length [], connected := true }, .ok)
   | .disconnect =>
     if w.connected then
-      let w1 := streamStop w
+      let w1 := streamStop w a
       -- ch_disable_all(True): asserts a device, disables all, writes; an exception raised there
       -- propagates: `_comm.disconnect()` is skipped, `_connected` stays True and the call raises
       -- (the stream is stopped and the requested vectors are changed by then)
-      match (if w1.hasDev then cfgCall w1 .disableAll true else (w1, .raised .assertion)) with
-      | (w2, .raised e) => (w2, .raised e)
+      match (if w1.hasDev then cfgCall w1 .disableAll true a else (w1, .raised .assertion)) with
       | (w2, .ok) =>
         let w3 := commDisconnect w2
         ({ w3 with connected := false }, .ok)
+      | (w2, r) => (w2, r)
     else (w, .ok)
   | .streamStart =>
     if w.streamStarted then (w, .ok)
     else
-      match doWrite w with
-      | (w1, .raised e) => (w1, .raised e)
+      match doWrite w a with
       | (w1, .ok) =>
-        ({ w1 with log := w1.log ++ okFrame (frameStart true), devStarted := true, streamThr := true,
-                   streamStarted := true }, .ok)
-  | .streamStop => (streamStop w, .ok)
+        -- `_stream_start()`: the outcome of the start request is ignored
+        ({ (commStartReq w1 true a.st).1 with streamThr := true, streamStarted := true }, .ok)
+      | (w1, r) => (w1, r)
+  | .streamStop => (streamStop w a, .ok)
   | .sub c =>
-    if c < w.subs.length then
-      ({ w with subs := w.subs.set c (w.subs.getD c [] ++ [w.nextQ]), nextQ := w.nextQ + 1 }, .ok)
+    let i := pyIdx w.subs.length c
+    if i < w.subs.length then
+      ({ w with subs := w.subs.set i (w.subs.getD i [] ++ [w.nextQ]), nextQ := w.nextQ + 1 }, .ok)
     else (w, .raised .indexError)
   | .unsub q => ({ w with subs := w.subs.map fun l => l.erase q }, .ok)
-  | .chEnable cs wn => cfgCall w (.enable cs) wn
-  | .chDisable cs wn => cfgCall w (.disable cs) wn
-  | .chDisableAll wn => if !w.hasDev then (w, .raised .assertion) else cfgCall w .disableAll wn
+  | .chEnable cs wn => cfgCall w (.enable (idxs w cs)) wn a
+  | .chDisable cs wn => cfgCall w (.disable (idxs w cs)) wn a
+  | .chDisableAll wn => if !w.hasDev then (w, .raised .assertion) else cfgCall w .disableAll wn a
   | .chDivider cs v wn =>
     if v < 0 ∨ v > 255 then (w, .raised .valueError)
     else if !w.hasDev then (w, .raised .assertion)
-    else cfgCall w (.divider cs v) wn
-  | .defaultCfg wn => if !w.hasDev then (w, .raised .assertion) else cfgCall w .defaultCfg wn
-  | .channelsWrite => doWrite w
+    else cfgCall w (.divider (idxs w cs) v) wn a
+  | .defaultCfg wn => if !w.hasDev then (w, .raised .assertion) else cfgCall w .defaultCfg wn a
+  | .channelsWrite => doWrite w a
   | .devChannelGet _ => if !w.hasDev then (w, .raised .assertion) else (w, .ok)
 
+/-- one public call of a bare `CommHandler` -/
+def commStep (w : World) (call : CommCall) (a : Ans := {}) : World × Res :=
+  match call with
+  | .connect => (commConnect w, .ok)
+  | .disconnect => (commDisconnect w, .ok)
+  | .streamStart => let r := commStartReq w true a.st; (r.1, .ack r.2.1 r.2.2)
+  | .streamStop => let r := commStartReq w false a.st; (r.1, .ack r.2.1 r.2.2)
+  | .chEnable cs => cfgCall w (.enable (idxs w cs)) false a
+  | .chDisable cs => cfgCall w (.disable (idxs w cs)) false a
+  | .chDivider cs v =>
+    if v < 0 ∨ v > 255 then (w, .raised .valueError)
+    else if !w.hasDev then (w, .raised .assertion)
+    else cfgCall w (.divider (idxs w cs) v) false a
+  | .chEnableAll => if !w.hasDev then (w, .raised .assertion) else cfgCall w .enableAll false a
+  | .chDisableAll => if !w.hasDev then (w, .raised .assertion) else cfgCall w .disableAll false a
+  | .defaultCfg => if !w.hasDev then (w, .raised .assertion) else cfgCall w .defaultCfg false a
+  | .channelsWrite => doWrite w a
+
+/-- a history in which the device acknowledges everything -/
 def run (w : World) : List Call → World × List Res
   | [] => (w, [])
   | c :: r =>
@@ -148,9 +257,28 @@ def run (w : World) : List Call → World × List Res
     let (w2, rs) := run w1 r
     (w2, res :: rs)
 
-/-- a fresh handler pair in front of device `d` (which may have been left streaming) -/
-def World.fresh (d : Device) (started : Bool) (flags : Nat) : World :=
-  { dev := d, devStarted := started, flags := flags }
+/-- a history with the device's answers, per call -/
+def runA (w : World) : List (Call × Ans) → World × List Res
+  | [] => (w, [])
+  | c :: r =>
+    let (w1, res) := step w c.1 c.2
+    let (w2, rs) := runA w1 r
+    (w2, res :: rs)
+
+/-- a history on a bare `CommHandler` with the device's answers, per call -/
+def commRun (w : World) : List (CommCall × Ans) → World × List Res
+  | [] => (w, [])
+  | c :: r =>
+    let (w1, res) := commStep w c.1 c.2
+    let (w2, rs) := commRun w1 r
+    (w2, res :: rs)
+
+/-- the description of a device about which nothing but the channel count is said -/
+def Desc.plain (n : Nat) : Desc := { chans := List.replicate n ⟨10, 1, 0, []⟩ }
+
+/-- a fresh handler (pair) in front of device `d` (which may have been left streaming) -/
+def World.fresh (d : Device) (started : Bool) (flags : Nat) (desc : Desc := Desc.plain d.en.length) : World :=
+  { dev := d, devStarted := started, flags := flags, desc := desc }
 
 end Lifecycle
 end Nxs
